@@ -61,11 +61,15 @@ def _eqz(a: Axis) -> bool:
 
 
 class CoordInterp:
-    def __init__(self, ext_name: Callable[[ast.Call], Optional[str]], depth: int = 0):
+    def __init__(self, ext_name: Callable[[ast.Call], Optional[str]], depth: int = 0, internal=None, summaries=None):
+        """internal(call) -> (FunctionDef, ext_name for it, skip_first_param) for library functions to inline;
+        summaries: {callee name: function(interp, call, args) -> CT}."""
         self.ext_name = ext_name
         self.conflicts: List[CT] = []
         self.unknowns: List[CT] = []
         self.depth = depth
+        self.internal = internal
+        self.summaries = summaries or {}
 
     # ------------------------------------------------------------------ driver
     def run(self, fn: ast.FunctionDef, arg_types: Dict[str, CT], closure: Optional[Dict[str, CT]] = None) -> List[Tuple[ast.Return, CT]]:
@@ -391,7 +395,7 @@ class CoordInterp:
             for k in e.keywords:
                 if k.arg:
                     binding[k.arg] = self.eval(k.value, env)
-            sub = CoordInterp(self.ext_name, self.depth + 1)
+            sub = CoordInterp(self.ext_name, self.depth + 1, internal=self.internal, summaries=self.summaries)
             rets = sub.run(fn, binding, closure={**cenv, **{k: v for k, v in env.items() if k not in cenv}})
             self.conflicts += sub.conflicts
             self.unknowns += sub.unknowns
@@ -399,6 +403,28 @@ class CoordInterp:
             for (_, t) in rets:
                 out = t if out is None else self._join(out, t)
             return out if out is not None else INVC
+        last = dotted(e.func).split(".")[-1] if dotted(e.func) else ""
+        if last in self.summaries:
+            return self.summaries[last](self, e, args)
+        if self.internal is not None and self.depth < 5:
+            tgt = self.internal(e)
+            if tgt is not None:
+                fn, ext2, skip = tgt
+                params = [a.arg for a in fn.args.posonlyargs + fn.args.args]
+                if skip and params:
+                    params = params[1:]
+                binding = {p: a for p, a in zip(params, args)}
+                for k in e.keywords:
+                    if k.arg:
+                        binding[k.arg] = self.eval(k.value, env)
+                sub = CoordInterp(ext2, self.depth + 1, internal=self.internal, summaries=self.summaries)
+                rets = sub.run(fn, binding)
+                self.conflicts += sub.conflicts
+                self.unknowns += sub.unknowns
+                out = None
+                for (_, t) in rets:
+                    out = t if out is None else self._join(out, t)
+                return out if out is not None else INVC
         # methods of arrays
         if isinstance(e.func, ast.Attribute) and not name.startswith(("numpy.", "builtins.", "scipy.", "math.")):
             base = self.eval(e.func.value, env)
